@@ -24,14 +24,24 @@ def gen_cases(ctx, rng):
             chain = [L.tx("latency", name="t0", latency=rng.choice([1000, 3000]), jitter=0), L.tx("bandwidth", name="t1", rate=rng.choice([1, 2]))]
             pres = True
             stats["queued_behind_slow_stage"] += 1
+        if i % 10 == 5:
+            # a stage that holds data (sleeping in latency, pacing in bandwidth, between slices) is switched off or on by an update of
+            # its toxicity while traffic continues, and later removed or reset: nothing may be parked, overtaken or lost
+            holder = rng.choice([L.tx("latency", name="t0", latency=rng.choice([300, 1500]), jitter=0), L.tx("bandwidth", name="t0", rate=rng.choice([1, 3])),
+                                 L.tx("slicer", name="t0", average_size=50, size_variation=0, delay=20000)])
+            chain = [holder] + ([L.tx("noop", name="t1")] if rng.chance(1, 2) else [])
+            pres = True
+            stats["switched_while_holding"] = stats.get("switched_while_holding", 0) + 1
         for t in chain:
-            if t["type"] == "bandwidth" and i % 10:
+            if t["type"] == "bandwidth" and i % 10 and i % 10 != 5:
                 t["attributes"]["rate"] = rng.choice([10, 1000])      # keep every hand-off far below five seconds
         live = [t["name"] for t in chain]
         specs = {t["name"]: t for t in chain}
         # traffic: a steady stream of chunks while operations land in between (not synchronised with the chunks)
         src, t = [], 1 * L.MS
         nchunks = rng.range(4, 25) if i % 10 else 8
+        if i % 10 == 5:
+            nchunks = rng.range(6, 14)
         period = rng.choice([1, 3, 10, 40]) * L.MS + rng.range(0, 999)
         for _ in range(nchunks):
             src.append({"at": t, "n": rng.range(1, 1500) if i % 10 else 1000})
@@ -46,19 +56,43 @@ def gen_cases(ctx, rng):
                 live.remove("t0")
                 stats["ops"]["remove"] += 1
                 break
+            if i % 10 == 5:
+                t1 = src[min(2, len(src) - 1)]["at"] + rng.range(1, 30) * L.MS + 333
+                ops.append({"at": t1, "op": "update", "name": "t0", "body": json.dumps({"toxicity": 0})})
+                how = rng.choice(["remove", "reset", "back_on", "nothing"])
+                t2 = t1 + rng.range(50, 400) * L.MS + 111
+                if how == "remove":
+                    ops.append({"at": t2, "op": "remove", "name": "t0"})
+                elif how == "reset":
+                    ops.append({"at": t2, "op": "reset"})
+                elif how == "back_on":
+                    ops.append({"at": t2, "op": "update", "name": "t0", "body": json.dumps({"toxicity": 1})})
+                stats["ops"]["update"] += 1
+                to = t2 + 1
+                break
             if k < 35 or not live:
                 name = "t%d" % nextid
                 nextid += 1
                 tx = mk(rng, name, rng.choice(kinds))
                 if tx["type"] == "bandwidth":
                     tx["attributes"]["rate"] = rng.choice([10, 1000])
+                if rng.chance(1, 6):
+                    tx["toxicity"] = 0
                 ops.append({"at": to, "op": "add", "toxic": tx})
                 live.append(name)
                 specs[name] = tx
                 stats["ops"]["add"] += 1
             elif k < 60:
                 name = rng.choice(live)
-                ops.append({"at": to, "op": "update", "name": name, "body": update_body(rng, specs[name])})
+                body = update_body(rng, specs[name])
+                if rng.chance(1, 3):
+                    # the update also switches the toxic off or on for this connection (toxicity 0 / 1): the stage is replaced by a
+                    # noop or back while it may be holding data
+                    b = json.loads(body)
+                    b["toxicity"] = rng.choice([0, 0, 1])
+                    body = json.dumps(b)
+                    stats["toxicity_switched"] = stats.get("toxicity_switched", 0) + 1
+                ops.append({"at": to, "op": "update", "name": name, "body": body})
                 stats["ops"]["update"] += 1
             elif k < 92:
                 name = rng.choice(live)
@@ -135,7 +169,8 @@ def run(ctx):
         rule="a steady stream of 4-25 chunks with 1-6 add/update/remove/reset operations landing at instants unrelated to the chunks (chunks "
              "sleeping in latency, mid-instalment in bandwidth, mid-slice in slicer, parked in the 1024 buffer), chains of 0-3 toxics, two thirds "
              "data-preserving only, a tenth with eight chunks parked behind a 1-2 KB/s stage when the latency toxic is removed, a fifth with a "
-             "slow receiver (< 5 s per write), a quarter with 2-3 connections; non-trivial = an operation lands before the last chunk; distinct by JSON",
+             "slow receiver (< 5 s per write), a quarter with 2-3 connections; a third of the updates also switch the toxic off or on "
+             "(toxicity 0 / 1) while it may hold data; non-trivial = an operation lands before the last chunk; distinct by JSON",
         nontrivial=lambda c: bool(c.get("ops")) and c["ops"][0]["at"] < max(e["at"] for e in c["src"]),
         assumptions=["executions in which a hand-off blocks for five seconds or more are outside the property (generators keep every hand-off far below)",
                      "single-connection scripts with toxicity 0/1 are replayed through the executable reconfiguration model (Model/ReconfRun.v) and "
